@@ -101,7 +101,11 @@ func populate(t *rapid.T, label string, msg protoreflect.Message, o *PopOpts, de
 			for j := 0; j < n; j++ {
 				if fd.Message() != nil {
 					v := lst.NewElement()
-					if depth > 0 {
+					if fd.Message().FullName() == "google.protobuf.Timestamp" {
+						tm := v.Message()
+						tm.Set(tm.Descriptor().Fields().ByName("seconds"), protoreflect.ValueOfInt64(int64(rapid.IntRange(1, 2000000000).Draw(t, l+".sec"))))
+						tm.Set(tm.Descriptor().Fields().ByName("nanos"), protoreflect.ValueOfInt32(int32(rapid.IntRange(0, 999999999).Draw(t, l+".ns"))))
+					} else if depth > 0 {
 						populate(t, l, v.Message(), o, depth-1)
 					}
 					lst.Append(v)
@@ -122,8 +126,8 @@ func populate(t *rapid.T, label string, msg protoreflect.Message, o *PopOpts, de
 					sec = rapid.Int64Range(0, 2000000000).Draw(t, l+".sec2")
 				}
 				ns := int32(rapid.IntRange(0, 999999999).Draw(t, l+".ns"))
-				if o.NoZeroTimestamps && sec == 0 && ns == 0 {
-					sec = 1
+				if o.NoZeroTimestamps && sec == 0 {
+					sec = 1 // (nothing in second 0: "to the second" it is the all-zero date)
 				}
 				m.Set(m.Descriptor().Fields().ByName("seconds"), protoreflect.ValueOfInt64(sec))
 				m.Set(m.Descriptor().Fields().ByName("nanos"), protoreflect.ValueOfInt32(ns))
@@ -366,6 +370,9 @@ func changed(t *rapid.T, fd protoreflect.FieldDescriptor, old protoreflect.Value
 		return protoreflect.ValueOfBool(!old.Bool())
 	case protoreflect.EnumKind:
 		vals := fd.Enum().Values()
+		if vals.Len() < 2 {
+			return protoreflect.ValueOfEnum(old.Enum() + 1) // (an enum with one value: any other number)
+		}
 		for {
 			n := vals.Get(rapid.IntRange(0, vals.Len()-1).Draw(t, "chgenum")).Number()
 			if n != old.Enum() {
